@@ -1373,6 +1373,8 @@ fn stress_case(_case: u64, rng: &mut Rng, st: &mut Stats, ops_per_thread: usize)
 // ---------------------------------------------------------------------------------------------
 
 fn main() {
+    // tasks are polled by hand in this binary: see vcore::run::use_plain_block_on
+    vcore::run::use_plain_block_on();
     let mut run = Run::from_args(
         "C10",
         "exploration",
